@@ -522,6 +522,13 @@ inductive DefineCell where
   | always | whenNonZero | never | unrecognised
   deriving DecidableEq, Repr
 
+/-- callBin's aReturn arm: the base `b` of `dest := f.data[b+i]` -/
+inductive RetBase where
+  | childPos    -- b := childPos(n): the result slot of the operand, written while the operands are evaluated (until 28d3d87)
+  | zeroOrOwn   -- b := 0; if len(n.anc.child) > 1 { b = n.findex }: result slot 0 for a sole operand, else the call's own cell
+  | unrecognised
+  deriving DecidableEq, Repr
+
 /-- the choices of the source text (regenerated by extract/cmd/c07) -/
 structure Facts where
   arms : List Arm                 -- inner switch of callBin, in order
@@ -554,7 +561,7 @@ structure Facts where
   assignSrcIdx : IExpr            -- aAssignX: v(f).Set(out[<idx>]) for rvalues[i]
   assignDstIdx : IExpr            -- rvalues[i] = … n.anc.child[<idx>]
   returnDstIdx : IExpr            -- aReturn: f.data[b+i]
-  returnBaseIsChildPos : Bool     -- b := childPos(n)
+  returnBase : RetBase            -- aReturn: b := 0; if len(n.anc.child) > 1 { b = n.findex }
   defaultDstIdx : IExpr           -- default: data[n.findex+i]
   defineXCell : DefineCell        -- aAssignX, defineXStmt && !c.redeclared: data[c.findex] = reflect.New(…).Elem() before the store, unconditionally
   branchDstIdx : IExpr            -- branch arm: index := n.findex; getFrame(f, level).data[index].SetBool(b)
@@ -723,7 +730,7 @@ def packCallY (variadic : Nat) (args : List (Rep × Bool)) : List Rep :=
 
 inductive Ctx where
   | assignX (blanks : List Bool)   -- a, _, c := f()  /  a, b = f()
-  | ret (childPos : Nat)           -- return …, f(), … : f is operand number childPos
+  | ret (childPos nOps : Nat)      -- return …, f(), … : f is operand number childPos of nOps operands
   | deflt (findex : Nat)           -- results stay in the call node's frame cells (expression, nested call, statement)
   | cond (findex : Nat)            -- the call is a condition (if / for / operand of && || !): the bool result goes to the call's cell
   deriving DecidableEq, Repr
@@ -741,7 +748,14 @@ def routeOneY (f : Facts) (c : Ctx) (i : Nat) : Nat × Slot :=
   | .assignX blanks =>
     let d := f.assignDstIdx.eval i 0
     (f.assignSrcIdx.eval i 0, if blanks.getD d false then .dropped else .lhs d)
-  | .ret b => (i, .result (f.returnDstIdx.eval i (if f.returnBaseIsChildPos then b else 0)))
+  | .ret pos nOps =>
+    (match f.returnBase with
+     | .childPos => (i, .result (f.returnDstIdx.eval i pos))
+     | .zeroOrOwn =>
+       -- a sole operand: straight into the result slots; otherwise into the call's own cell, from where the return statement
+       -- assigns operand `pos` to result slot `pos` (`retStmtY` below is about the order of those reads and writes)
+       if nOps > 1 then (i, .result (pos + i)) else (i, .result (f.returnDstIdx.eval i 0))
+     | .unrecognised => (i, .dropped))
   | .deflt fi => (i, .tmp (f.defaultDstIdx.eval i fi))
   | .cond fi => (i, .tmp (f.branchDstIdx.eval i fi + i))
 
@@ -752,7 +766,7 @@ def routeY (f : Facts) (c : Ctx) (nOut : Nat) : List (Nat × Slot) :=
 def routeSpecOne (c : Ctx) (i : Nat) : Nat × Slot :=
   match c with
   | .assignX blanks => (i, if blanks.getD i false then .dropped else .lhs i)
-  | .ret b => (i, .result (b + i))
+  | .ret pos _ => (i, .result (pos + i))
   | .deflt fi => (i, .tmp (fi + i))
   | .cond fi => (i, .tmp (fi + i))
 
@@ -775,6 +789,44 @@ def branchStep (s : BranchStore) (slot r : Bool) : Bool :=
 def branchReadsY (s : BranchStore) : Bool → List Bool → List Bool
   | _, [] => []
   | slot, r :: rs => branchStep s slot r :: branchReadsY s (branchStep s slot r) rs
+
+/-- well-formed contexts: the operand position is one of the operands -/
+def Ctx.wf : Ctx → Bool
+  | .ret pos nOps => decide (pos < nOps)
+  | _ => true
+
+/-! ### a return statement with several operands
+
+  `return hp.F(b), a` in a function with named results: the operands are evaluated (the calls run), then all of them are read,
+  then the results are assigned. A call that wrote its result slot while the operands were evaluated would change what a later
+  operand reads from that result variable. -/
+
+inductive RetOperand where
+  | call (v : Rep)      -- a host call with one result
+  | named (k : Nat)     -- the current value of result variable k
+  | other (v : Rep)     -- anything else (a constant, a local)
+
+/-- result slots after the calls ran: the old arm writes slot `p` for a call at operand position `p` -/
+def retAfterCalls (writes : Bool) : Nat → List RetOperand → List Rep → List Rep
+  | _, [], slots => slots
+  | p, .call v :: rest, slots => retAfterCalls writes (p + 1) rest (if writes then slots.set p v else slots)
+  | p, _ :: rest, slots => retAfterCalls writes (p + 1) rest slots
+
+def RetOperand.value (slots : List Rep) : RetOperand → Rep
+  | .call v => v
+  | .named k => slots.getD k .nil
+  | .other v => v
+
+/-- the results a return statement with these operands assigns, `init` being the result variables before it -/
+def retStmtY (b : RetBase) (ops : List RetOperand) (init : List Rep) : List Rep :=
+  let writes := match b with
+    | .childPos => true
+    | .zeroOrOwn => decide (ops.length ≤ 1)
+    | .unrecognised => true
+  ops.map (RetOperand.value (retAfterCalls writes 0 ops init))
+
+/-- Go: every operand is evaluated against the result variables as they were -/
+def retStmtSpec (ops : List RetOperand) (init : List Rep) : List Rep := ops.map (RetOperand.value init)
 
 /-! ### `q, r := hp.F(…)` executed repeatedly in one frame, the variables of earlier executions still referenced
 
